@@ -1,0 +1,27 @@
+//go:build verif
+// +build verif
+
+package header
+
+// Verification harnesses (build tag verif; never part of a normal build). Each lays out the
+// option bytes of a SYN exactly as the stack's own encoder (tcp.makeSynOptions) orders them
+// and hands them to the real parser; the contracts in contracts_verif.go state what the parser
+// must recover, for all field values.
+
+// MSS, then NOP NOP SACK-permitted (only SACK offered).
+func verifSynSackOnly(m1, m2 byte, isAck bool) TCPSynOptions {
+	b := [8]byte{TCPOptionMSS, 4, m1, m2, TCPOptionNOP, TCPOptionNOP, TCPOptionSACKPermitted, 2}
+	return ParseSynOptions(b[:], isAck)
+}
+
+// MSS, NOP NOP SACK-permitted, NOP window-scale (SACK and window scaling offered).
+func verifSynSackWS(m1, m2, ws byte, isAck bool) TCPSynOptions {
+	b := [12]byte{TCPOptionMSS, 4, m1, m2, TCPOptionNOP, TCPOptionNOP, TCPOptionSACKPermitted, 2, TCPOptionNOP, TCPOptionWS, 3, ws}
+	return ParseSynOptions(b[:], isAck)
+}
+
+// MSS, SACK-permitted, timestamp, NOP window-scale (everything offered).
+func verifSynAll(m1, m2, ws byte, t1, t2, t3, t4, e1, e2, e3, e4 byte, isAck bool) TCPSynOptions {
+	b := [20]byte{TCPOptionMSS, 4, m1, m2, TCPOptionSACKPermitted, 2, TCPOptionTS, 10, t1, t2, t3, t4, e1, e2, e3, e4, TCPOptionNOP, TCPOptionWS, 3, ws}
+	return ParseSynOptions(b[:], isAck)
+}
